@@ -371,8 +371,16 @@ func (h *hChecker) StaticCheck(userCtx interface{}, node parsley.NonTerminalNode
 	if h.run.callback("check", id, userCtx, " sees["+strings.Join(seen, ",")+"]") {
 		return nil, parsley.NewErrorf(parsley.Pos(id), "fault@%d", id)
 	}
+	if id%2 == 1 {
+		return mapSchema{"id": id}, nil // a schema of an uncomparable Go type (a JSON-schema-like map)
+	}
 	return fmt.Sprintf("S%d", id), nil
 }
+
+// mapSchema renders like the string schemas but cannot be compared with ==.
+type mapSchema map[string]int
+
+func (m mapSchema) String() string { return fmt.Sprintf("S%d", m["id"]) }
 
 type hTransformer struct{ hInterp }
 
